@@ -82,6 +82,12 @@ func (fr *Frame) call(st *State, c *ast.CallExpr) []Val {
 	if h, ok := libHandlers[full]; ok {
 		return h(fr, st, c, fn)
 	}
+	if ct := x.eng.findContract(fn); ct != nil && ct.InlineAtCallers && fr.contract != ct {
+		if decl, dpkg := x.eng.funcDecl(fn); decl != nil && decl.Body != nil && fr.depth < 4 && !fr.onStack(full) {
+			x.usedContracts[ct.Pkg+"::"+ct.Key()] = ct
+			return fr.inlineCall(st, c, fn, decl, dpkg)
+		}
+	}
 	if ct := x.eng.findContract(fn); ct != nil && !(fr.contract == ct) {
 		return fr.contractCall(st, c, fn, ct)
 	} else if ct != nil && fr.contract == ct {
@@ -437,7 +443,7 @@ func (fr *Frame) inlineLit(st *State, c *ast.CallExpr, lit *ast.FuncLit, owner *
 	x := fr.x
 	sig := owner.info.Types[lit].Type.(*types.Signature)
 	sub := &Frame{x: x, pkg: owner.pkg, info: owner.info, sig: sig, safe: fr.safe, depth: fr.depth + 1,
-		fnName: owner.fnName + "$lit", inlineStack: fr.inlineStack, contract: nil,
+		fnName: owner.fnName + "$lit", inlineStack: fr.inlineStack, contract: owner.contract, specNames: owner.specNames, modsInfo: owner.modsInfo,
 		loopOrd: map[string]int{}, atOrd: map[string]int{}, closureOrd: map[string]int{}, body: lit.Body}
 	var argv []Val
 	for _, a := range c.Args {
@@ -526,7 +532,8 @@ func (fr *Frame) builtin(st *State, c *ast.CallExpr, name string) []Val {
 			return []Val{{T: r, S: "Int", Ty: t}}
 		case *types.Chan:
 			r := x.alloc(st, "chan")
-			x.heapStore(st, x.nsentKey(x.u.sortOf(tt.Elem())), r, "0")
+			nk, _, _ := x.chanKeys(tt.Elem())
+			x.heapStore(st, nk, r, "0")
 			if len(c.Args) > 1 {
 				capv := fr.expr(st, c.Args[1])
 				x.u.regHeap("chan.cap", "(Array Int Int)")
